@@ -52,6 +52,17 @@ fn iter_case(data: &[u8], bufsize: usize) -> Result<(), String> {
         let wantb: Vec<RefBlock> = want.into_iter().map(|(_, _, b)| b).collect();
         if got != wantb { return Err(format!("blocks {got:?}, expected {wantb:?}")); }
         let _ = format!("{:?}", d); // Debug formatting must not panic either
+        // history: a later reply that does not fit must leave the stored diagnostics untouched; one that fits replaces them
+        if bufsize > 0 {
+            let before: Vec<u8> = d.raw_diag_buffer().unwrap().to_vec();
+            let big: Vec<u8> = (0..bufsize + 1 + data.len() % 3).map(|i| 0xA0u8.wrapping_add(i as u8)).collect();
+            if d.fill(&big) { return Err("oversized extended diagnostics reported as stored".into()); }
+            if d.raw_diag_buffer().unwrap() != &before[..] { return Err(format!("oversized reply changed the stored diagnostics {:02x?} -> {:02x?}", before, d.raw_diag_buffer().unwrap())); }
+            let small = [0x43u8, 0x00, 0x01];
+            if small.len() <= bufsize {
+                if !d.fill(&small) || d.raw_diag_buffer().unwrap() != &small[..] { return Err("fitting reply not stored after an oversized one".into()); }
+            }
+        }
         Ok(())
     });
     match r { Ok(x) => x, Err(_) => Err("panic".into()) }
